@@ -288,6 +288,14 @@ func (commander *Commander) nextTXID() *big.Int {
 	return ret
 }
 
+// peekTXID returns the id the next transaction will get, without allocating it.
+func (commander *Commander) peekTXID() *big.Int {
+	commander.mu.Lock()
+	defer commander.mu.Unlock()
+
+	return big.NewInt(0).Add(commander.lastTXID, big.NewInt(1))
+}
+
 func (commander *Commander) DeleteMetadata(ctx context.Context, parameters Parameters, targetType string, targetID any, key string) error {
 	execContext := newExecutionContext(commander, parameters)
 	_, err := execContext.run(ctx, func(executionContext *executionContext) (*ledger.ChainedLog, chan struct{}, error) {
